@@ -531,7 +531,8 @@ TRUSTED_BASE = [
     "Coq 8.16.1 kernel (coqc; vm_compute in finite-domain lemmas and witnesses; no native_compute)",
     "axioms: none declared; Print Assumptions output per theorem is recorded in coverage.theorems",
     "extraction with ExtrOcamlBasic only (bool, option, unit, list, prod, sumbool, sumor, andb, orb); OCaml 4.13.1; zarith only for decimal I/O in the hand-written driver; cross-checked on every run: a random sample of the run's cases (coverage.extraction_crosschecked_in_coq) is re-evaluated inside Coq by vm_compute (AV.Model.Trace) and must give byte-identical trace lines",
-    "correspondence check: harness (instrumented element types, registry, Reloc backend, instrumented global allocator), case generators, comparator",
+    "the list specification (AV.Spec.WorldSpec) is extracted with the model (Track.spec_track, proven sound in AV.Proofs.Track) and its prediction is compared with the model's line on every step it covers (coverage.steps_inside_history_fragment); a disagreement is reported as CHECK-BROKEN",
+    "correspondence check: harness (instrumented element types with identities spread over all bytes, registry, Reloc backend, instrumented global allocator, watchdog and address-space limit), case generators, comparator",
     "modelled rather than verified: Rust's dynamic semantics as used by the crate (monomorphised Unknown::is dispatch, unwinding order, ptr::copy = memmove, TypeId equality), the global allocator's contract, rustc's struct layout",
 ]
 ASSUMPTIONS = [
